@@ -620,7 +620,7 @@ theorem inInt32_eq (z : Int) : inInt32 z = decide (-(2 ^ 31 : Int) ≤ z ∧ z <
       simp [this]
     · left; simp [h1]
 
-theorem fltToInt_eq (m e : Int) : fltToInt? m e = Spec.asInteger? (.flt m e) := by
+theorem fltToInt_eq (fk : FltKind) (m e : Int) : fltToInt? m e = Spec.asInteger? (.flt fk m e) := by
   unfold fltToInt? Spec.asInteger?
   by_cases h : 0 ≤ e
   · have : e ≥ 0 := h
@@ -633,16 +633,79 @@ theorem fltToInt_eq (m e : Int) : fltToInt? m e = Spec.asInteger? (.flt m e) := 
     · have : ¬ m % 2 ^ (-e).toNat = 0 := fun x => hd (Int.dvd_of_emod_eq_zero x)
       simp [hd, this]
 
+theorem pow63 : (2 : Int) ^ 63 = 9223372036854775808 := by decide
+
+/-- The per-kind range tests of `coerceInt` all decide the same thing: the value lies in the signed
+    32-bit range (for the narrow kinds the test is omitted because it cannot fail). -/
+theorem coerceIntKind_eq (k : IntKind) (z : Int) :
+    coerceIntKind k (k.wrap z) =
+      if -(2 ^ 31 : Int) ≤ k.wrap z ∧ k.wrap z < 2 ^ 31 then some (.int (k.wrap z)) else none := by
+  rw [pow31]
+  have small : ∀ v : Int, (-2147483648 ≤ v ∧ v < 2147483648) →
+      some (Json.int v) = if -2147483648 ≤ v ∧ v < 2147483648 then some (Json.int v) else none := by
+    intro v h; rw [if_pos h]
+  have unsigned : ∀ v : Int, 0 ≤ v →
+      (if v ≤ maxInt32 then some (Json.int v) else none) =
+        if -2147483648 ≤ v ∧ v < 2147483648 then some (Json.int v) else none := by
+    intro v h0
+    have hm : maxInt32 = 2147483647 := rfl
+    by_cases h : v ≤ maxInt32
+    · rw [if_pos h, if_pos (by rw [hm] at h; omega)]
+    · rw [if_neg h, if_neg (by rw [hm] at h; omega)]
+  have signed : ∀ v : Int, (if inInt32 v then some (Json.int v) else none) =
+        if -2147483648 ≤ v ∧ v < 2147483648 then some (Json.int v) else none := by
+    intro v
+    simp only [inInt32_eq, pow31]
+    by_cases h : (-2147483648 : Int) ≤ v ∧ v < 2147483648 <;> simp [h]
+  cases k
+  case i8 => exact small _ (by simp only [IntKind.wrap]; omega)
+  case u8 => exact small _ (by simp only [IntKind.wrap]; omega)
+  case i16 => exact small _ (by simp only [IntKind.wrap]; omega)
+  case u16 => exact small _ (by simp only [IntKind.wrap]; omega)
+  case i32 => exact small _ (by simp only [IntKind.wrap]; omega)
+  case u32 => exact unsigned _ (by simp only [IntKind.wrap]; omega)
+  case u64 => exact unsigned _ (by simp only [IntKind.wrap]; omega)
+  case uint => exact unsigned _ (by simp only [IntKind.wrap]; omega)
+  case i64 => exact signed _
+  case int => exact signed _
+
+/-- The ID coercion accepts exactly the integers that fit a signed 64-bit integer. -/
+theorem coerceIdKind_eq (k : IntKind) (z : Int) :
+    coerceIdKind k (k.wrap z) =
+      if k.wrap z < 2 ^ 63 then some (.str (toString (k.wrap z))) else none := by
+  rw [pow63]
+  have always : ∀ v : Int, v < 9223372036854775808 →
+      some (Json.str (toString v)) = if v < 9223372036854775808 then some (Json.str (toString v)) else none := by
+    intro v h; rw [if_pos h]
+  have checked : ∀ v : Int, (if v ≤ maxInt64 then some (Json.str (toString v)) else none) =
+        if v < 9223372036854775808 then some (Json.str (toString v)) else none := by
+    intro v
+    have hm : maxInt64 = 9223372036854775807 := rfl
+    by_cases h : v ≤ maxInt64
+    · rw [if_pos h, if_pos (by rw [hm] at h; omega)]
+    · rw [if_neg h, if_neg (by rw [hm] at h; omega)]
+  cases k
+  case u64 => exact checked _
+  case uint => exact checked _
+  case i8 => exact always _ (by simp only [IntKind.wrap]; omega)
+  case u8 => exact always _ (by simp only [IntKind.wrap]; omega)
+  case i16 => exact always _ (by simp only [IntKind.wrap]; omega)
+  case u16 => exact always _ (by simp only [IntKind.wrap]; omega)
+  case i32 => exact always _ (by simp only [IntKind.wrap]; omega)
+  case u32 => exact always _ (by simp only [IntKind.wrap]; omega)
+  case i64 => exact always _ (by simp only [IntKind.wrap]; omega)
+  case int => exact always _ (by simp only [IntKind.wrap]; omega)
+
 theorem coerceScalar_eq (k : ScalarKind) (g : GoVal) : coerceScalar k g = Spec.resultCoerce k g := by
   cases k with
   | int =>
     cases g with
-    | int z =>
-      simp only [coerceScalar, Spec.resultCoerce, Spec.asInteger?, inInt32_eq]
-      by_cases h : (-(2 ^ 31 : Int) ≤ z ∧ z < 2 ^ 31) <;> simp [h]
-    | flt m e =>
-      simp only [coerceScalar, Spec.resultCoerce, fltToInt_eq]
-      cases Spec.asInteger? (.flt m e) with
+    | int ik z =>
+      simp only [coerceScalar, Spec.resultCoerce, Spec.asInteger?]
+      exact coerceIntKind_eq ik z
+    | flt fk m e =>
+      simp only [coerceScalar, Spec.resultCoerce, fltToInt_eq fk]
+      cases Spec.asInteger? (.flt fk m e) with
       | none => rfl
       | some z =>
         simp only [inInt32_eq]
@@ -653,7 +716,15 @@ theorem coerceScalar_eq (k : ScalarKind) (g : GoVal) : coerceScalar k g = Spec.r
   | float => cases g <;> rfl
   | string => cases g <;> rfl
   | boolean => cases g <;> rfl
-  | id => cases g <;> rfl
+  | id =>
+    cases g with
+    | int ik z =>
+      simp only [coerceScalar, Spec.resultCoerce]
+      exact coerceIdKind_eq ik z
+    | flt fk m e => rfl
+    | str s => rfl
+    | bool b => rfl
+    | wrong => rfl
 
 theorem implementations_eq (S : Schema) (n : String) (fs : List FieldDef) (h : S.lookup n = some (.interface fs)) :
     Spec.possibleTypes S n = S.implementations n := by
@@ -4969,5 +5040,892 @@ theorem descends_of_check (D : Document) (lvl : Selection → Nat) (h : D.descen
     have := h _ hm
     simp only [hf, List.all_eq_true, decide_eq_true_eq] at this
     exact this s hs
+
+/-! ### totality of the model: no stuck outcome on cycle-free documents over closed schemas -/
+
+def TypeRef.base : TypeRef → String
+  | .named n => n
+  | .list t => t.base
+  | .nonNull t => t.base
+
+/-- what `schema.New` guarantees by construction (Go pointers cannot dangle): every field type names a
+    type of the schema, implementations and union members are object types -/
+structure SchemaClosed (S : Schema) : Prop where
+  fields : ∀ n o, S.object? n = some o → ∀ fd ∈ o.fields, S.lookup fd.type.base ≠ none
+  impls : ∀ n tn, tn ∈ S.implementations n → ∃ o, S.object? tn = some o
+  members : ∀ n ms, S.lookup n = some (.union ms) → ∀ tn ∈ ms, ∃ o, S.object? tn = some o
+
+/-- type conditions name composite types (validation rule FragmentsOnCompositeTypes), or no type -/
+structure CondsComposite (S : Schema) (D : Document) (P : Selection → Prop) : Prop where
+  inline : ∀ pos tc dirs sub, P (.inline pos (some tc) dirs sub) → ∀ o, fragmentApplies S o tc ≠ .panic
+  frags : ∀ fr ∈ D.frags, ∀ o, fragmentApplies S o fr.tc ≠ .panic
+
+def IsOk : Except Stuck α → Prop
+  | .ok _ => True
+  | .error _ => False
+
+theorem collectStep_isOk (S : Schema) (D : Document) (o : ObjT) (P : Selection → Prop) (hP : NodeSet D P)
+    (hC : CondsComposite S D P)
+    (lvl : Selection → Nat) (hL : Descends D P lvl) (fuel : Nat)
+    (recur : List Selection → CState → Except Stuck CState)
+    (hrec : ∀ sels st, (∀ s ∈ sels, P s ∧ lvl s + 2 ≤ fuel) → 1 ≤ fuel → IsOk (recur sels st))
+    (st : CState) (sel : Selection) (hsel : P sel) (hl : lvl sel + 1 ≤ fuel) :
+    IsOk (collectStep S D o recur st sel) := by
+  unfold collectStep
+  by_cases hs : skipped sel.dirs = true
+  · simp [hs, IsOk, pure, Except.pure]
+  · simp only [hs, Bool.false_eq_true, if_false]
+    have hfuel : 1 ≤ fuel := by omega
+    cases sel with
+    | field pos alias name wkey argErr dirs sub => simp [IsOk, pure, Except.pure]
+    | spread pos name dirs =>
+      simp only
+      by_cases hv : name ∈ st.visited
+      · simp [hv, IsOk, pure, Except.pure]
+      · simp only [List.contains_eq_mem, hv, decide_false, Bool.false_eq_true, if_false]
+        cases hf : D.frag? name with
+        | none => simp [IsOk, pure, Except.pure]
+        | some fr =>
+          simp only
+          cases ha : fragmentApplies S o fr.tc with
+          | no => simp [IsOk, pure, Except.pure]
+          | panic => exact absurd ha (hC.frags fr (frag?_mem D name fr hf) o)
+          | yes =>
+            simp only
+            apply hrec _ _ _ hfuel
+            intro s hs'
+            refine ⟨hP.frags fr (frag?_mem D name fr hf) s hs', ?_⟩
+            have := hL.spread pos name dirs fr hsel hf s hs'
+            omega
+    | inline pos tc dirs sub =>
+      have hsub : ∀ s ∈ sub, P s ∧ lvl s + 2 ≤ fuel := by
+        intro s hs'
+        refine ⟨hP.inline_sub _ _ _ _ hsel s hs', ?_⟩
+        have := hL.inline pos tc dirs sub hsel s hs'
+        omega
+      cases tc with
+      | none => exact hrec _ _ hsub hfuel
+      | some tc =>
+        simp only
+        cases ha : fragmentApplies S o tc with
+        | no => simp [IsOk, pure, Except.pure]
+        | panic => exact absurd ha (hC.inline pos tc dirs sub hsel o)
+        | yes => exact hrec _ _ hsub hfuel
+
+theorem collectImpl_isOk (S : Schema) (D : Document) (o : ObjT) (P : Selection → Prop) (hP : NodeSet D P)
+    (hC : CondsComposite S D P)
+    (lvl : Selection → Nat) (hL : Descends D P lvl) (fuel : Nat) (sels : List Selection) (st : CState)
+    (hsels : ∀ s ∈ sels, P s ∧ lvl s + 2 ≤ fuel) (hfuel : 1 ≤ fuel) :
+    IsOk (collectImpl S D o fuel sels st) := by
+  induction fuel generalizing sels st with
+  | zero => omega
+  | succ fuel ih =>
+    rw [collectImpl]
+    have fold : ∀ (sels : List Selection) (st : CState), (∀ s ∈ sels, P s ∧ lvl s + 1 ≤ fuel) →
+        IsOk (sels.foldlM (collectStep S D o (collectImpl S D o fuel)) st) := by
+      intro sels
+      induction sels with
+      | nil => intro st _; simp [IsOk, pure, Except.pure]
+      | cons sel rest ihl =>
+        intro st hs
+        simp only [List.foldlM_cons]
+        have h1 := collectStep_isOk S D o P hP hC lvl hL fuel (collectImpl S D o fuel)
+          (fun sels st h hf => ih sels st h hf) st sel (hs sel (List.mem_cons_self ..)).1 (hs sel (List.mem_cons_self ..)).2
+        cases hstep : collectStep S D o (collectImpl S D o fuel) st sel with
+        | error e => rw [hstep] at h1; exact absurd h1 (by simp [IsOk])
+        | ok st1 =>
+          simp only [bind, Except.bind]
+          exact ihl st1 (fun s hs' => hs s (List.mem_cons_of_mem _ hs'))
+    apply fold
+    intro s hs
+    have := hsels s hs
+    exact ⟨this.1, by omega⟩
+
+theorem collectFields_isOk (memo : Bool) (S : Schema) (D : Document) (P : Selection → Prop) (hP : NodeSet D P)
+    (hC : CondsComposite S D P)
+    (lvl : Selection → Nat) (hL : Descends D P lvl) (fuel : Nat) (o : ObjT) (sels : List Selection) (c : Cache)
+    (hsels : ∀ s ∈ sels, P s ∧ lvl s + 2 ≤ fuel) (hfuel : 1 ≤ fuel) :
+    ∃ r, collectFields memo S D fuel o sels c = .ok r := by
+  unfold collectFields
+  simp only
+  cases hget : (if memo = true then c.get? (cacheKey o sels) else none) with
+  | some g => exact ⟨_, rfl⟩
+  | none =>
+    simp only
+    have hn := collectImpl_isOk S D o P hP hC lvl hL fuel sels { visited := [], grouped := [] } hsels hfuel
+    cases hc : collectImpl S D o fuel sels { visited := [], grouped := [] } with
+    | ok st' => exact ⟨_, rfl⟩
+    | error e => rw [hc] at hn; exact absurd hn (by simp [IsOk])
+
+
+theorem groupInOrder_nonempty (fs : List FieldNode) (p : String × List FieldNode) (hp : p ∈ groupInOrder fs) : p.2 ≠ [] := by
+  obtain ⟨f, hf, hk⟩ := groupInOrder_key_mem fs p hp
+  rw [groupInOrder_exact fs p hp]
+  intro h
+  have : f ∈ fs.filter (fun x => x.responseKey == p.1) := List.mem_filter.mpr ⟨hf, by simp [hk]⟩
+  rw [h] at this
+  simp at this
+
+theorem catch_notStuck' (t : TypeRef) (out : Out) (h : out.r.notStuck) : (catchIfNullable t out).r.notStuck := by
+  cases t with
+  | nonNull t => exact h
+  | named n => simp only [catchIfNullable]; cases hr : out.r <;> simp_all [R.notStuck]
+  | list t => simp only [catchIfNullable]; cases hr : out.r <;> simp_all [R.notStuck]
+
+theorem execItemsWith_notStuck (I : Cache → Prop) (o : ObjT) (path : Path)
+    (field : List FieldNode → FieldNode → FieldDef → Path → Cache → Out)
+    (g : Grouped) (acc : List (String × Json)) (errs : List Err) (c : Cache)
+    (H : ∀ p ∈ g, ∀ fn fd pth c, I c → p.2.head? = some fn → o.getField fn.name = some fd →
+      (field p.2 fn fd pth c).r.notStuck ∧ I (field p.2 fn fd pth c).cache)
+    (hne : ∀ p ∈ g, p.2 ≠ [])
+    (hI : I c) :
+    (execItemsWith o path field g acc errs c).r.notStuck ∧ I (execItemsWith o path field g acc errs c).cache := by
+  induction g generalizing acc errs c with
+  | nil => simp [execItemsWith, hI, R.notStuck]
+  | cons p rest ih =>
+    obtain ⟨key, fields⟩ := p
+    have Hrest : ∀ p ∈ rest, ∀ fn fd pth c, I c → p.2.head? = some fn → o.getField fn.name = some fd →
+        (field p.2 fn fd pth c).r.notStuck ∧ I (field p.2 fn fd pth c).cache :=
+      fun p hp => H p (List.mem_cons_of_mem _ hp)
+    have hnerest : ∀ p ∈ rest, p.2 ≠ [] := fun p hp => hne p (List.mem_cons_of_mem _ hp)
+    simp only [execItemsWith]
+    cases hh : fields.head? with
+    | none =>
+      have := hne (key, fields) (List.mem_cons_self ..)
+      cases fields with
+      | nil => exact absurd rfl this
+      | cons a b => simp at hh
+    | some fn =>
+      simp only
+      by_cases htn : (fn.name == "__typename") = true
+      · simp only [htn, if_true]; exact ih _ _ _ Hrest hnerest hI
+      · simp only [htn, Bool.false_eq_true, if_false]
+        cases hfd : o.getField fn.name with
+        | none => simp only; exact ih _ _ _ Hrest hnerest hI
+        | some fd =>
+          simp only
+          obtain ⟨h1, h2⟩ := H (key, fields) (List.mem_cons_self ..) fn fd (path ++ [.key key]) c hI hh hfd
+          have h2' : I (catchIfNullable fd.type (field fields fn fd (path ++ [.key key]) c)).cache := by
+            rw [catch_cache]; exact h2
+          have h1' := catch_notStuck' fd.type _ h1
+          cases hr : (catchIfNullable fd.type (field fields fn fd (path ++ [.key key]) c)).r with
+          | ok j => simp only; exact ih _ _ _ Hrest hnerest h2'
+          | err e => simp only; exact ⟨by simp [R.notStuck], h2'⟩
+          | stuck st => rw [hr] at h1'; exact absurd h1' (by simp [R.notStuck])
+
+theorem joinResults_notStuck (rs : List R) (h : ∀ r ∈ rs, r.notStuck) : (joinResults rs).notStuck := by
+  simp only [joinResults]
+  cases hf : rs.findSome? R.stuck? with
+  | some st =>
+    obtain ⟨r, hr, hs⟩ := List.exists_of_findSome?_eq_some hf
+    have := h r hr
+    cases r <;> simp_all [R.stuck?, R.notStuck]
+  | none =>
+    simp only
+    cases rs.findSome? R.err? <;> simp [R.notStuck]
+
+theorem runItems_notStuck (I : Cache → Prop) (inner : TypeRef) (path : Path) (item : RVal → Path → Cache → Out)
+    (H : ∀ v p c, I c → (item v p c).r.notStuck ∧ I (item v p c).cache)
+    (items : List RVal) (i : Nat) (c : Cache) (hI : I c) :
+    (∀ r ∈ (runItems inner path item items i c).1, r.notStuck) ∧ I (runItems inner path item items i c).2.2 := by
+  induction items generalizing i c with
+  | nil => simp [runItems, hI]
+  | cons v rest ih =>
+    simp only [runItems]
+    obtain ⟨h1, h2⟩ := H v (path ++ [.idx i]) c hI
+    have h2' : I (catchIfNullable inner (item v (path ++ [.idx i]) c)).cache := by rw [catch_cache]; exact h2
+    obtain ⟨ih1, ih2⟩ := ih (i + 1) _ h2'
+    refine ⟨?_, ih2⟩
+    intro r hr
+    rcases List.mem_cons.mp hr with hr | hr
+    · rw [hr]; exact catch_notStuck' inner _ h1
+    · exact ih1 r hr
+
+def TotalC (memo : Bool) (S : Schema) (D : Document) (P : Selection → Prop) (lvl : Selection → Nat) (fuel : Nat) : Prop :=
+  ∀ t fields f0 v path c L, CacheOK S D P c → SubBound P lvl L fields → S.lookup t.base ≠ none →
+    t.wrappers + needSel S.maxWrappers L + 1 ≤ fuel →
+    (completeValue memo S D fuel t fields f0 v path c).r.notStuck ∧
+    CacheOK S D P (completeValue memo S D fuel t fields f0 v path c).cache
+
+def TotalS (memo : Bool) (S : Schema) (D : Document) (P : Selection → Prop) (lvl : Selection → Nat) (fuel : Nat) : Prop :=
+  ∀ o sels v path c L, CacheOK S D P c → S.object? o.name = some o → (∀ s ∈ sels, P s ∧ lvl s < L) →
+    needSel S.maxWrappers L ≤ fuel →
+    (execSelections memo S D fuel o sels v path c).r.notStuck ∧
+    CacheOK S D P (execSelections memo S D fuel o sels v path c).cache
+
+theorem totalS_succ (memo : Bool) (S : Schema) (D : Document) (P : Selection → Prop) (hP : NodeSet D P)
+    (hS : SchemaClosed S) (hC : CondsComposite S D P)
+    (lvl : Selection → Nat) (hL : Descends D P lvl) (fuel : Nat) (ih : TotalC memo S D P lvl fuel) :
+    TotalS memo S D P lvl (fuel + 1) := by
+  intro o sels v path c L hc ho hsels hfuel
+  rw [execSelections_succ]
+  unfold needSel at hfuel
+  have hmul : L ≤ L * (S.maxWrappers + 3) := Nat.le_mul_of_pos_right L (by omega)
+  obtain ⟨gc, hcm⟩ := collectFields_isOk memo S D P hP hC lvl hL fuel o sels c
+    (fun s hs => ⟨(hsels s hs).1, by have := (hsels s hs).2; omega⟩) (by omega)
+  obtain ⟨g', c'⟩ := gc
+  simp only [hcm]
+  obtain ⟨hc', fuel0, fs, v0, he, hg'⟩ := collectFields_inv memo S D P hP fuel o sels c g' c' hc ho
+    (fun s hs => (hsels s hs).1) hcm
+  by_cases hL0 : L = 0
+  · have hnil : sels = [] := by
+      apply List.eq_nil_iff_forall_not_mem.mpr
+      intro s hs
+      have := (hsels s hs).2
+      omega
+    subst hnil
+    have := expand_nil S D o fuel0 [] (fs, v0) he
+    simp only at this
+    subst this
+    subst hg'
+    simp only [groupInOrder, List.foldl_nil, execItemsWith]
+    exact ⟨by simp [R.notStuck], hc'⟩
+  · have hbound : SubBound P lvl (L - 1) fs :=
+      expand_bound S D o P hP lvl hL (L - 1) fuel0 sels [] (fs, v0)
+        (fun s hs => ⟨(hsels s hs).1, by have := (hsels s hs).2; omega⟩) he
+    apply execItemsWith_notStuck (CacheOK S D P)
+    · intro p hp fn fd pth c hIc hh hfd
+      have hpb : SubBound P lvl (L - 1) p.2 := by
+        rw [hg'] at hp
+        exact groupInOrder_subBound P lvl (L - 1) fs hbound p hp
+      unfold execFieldWith
+      cases hae : fn.argErr with
+      | some ae => exact ⟨by simp [R.notStuck], hIc⟩
+      | none =>
+        simp only
+        cases hres : resolve v fn.wkey with
+        | err m => exact ⟨by simp [R.notStuck], hIc⟩
+        | val rv =>
+          simp only
+          have hmem : fd ∈ o.fields := by
+            rw [getField_eq] at hfd
+            exact List.mem_of_find?_eq_some hfd
+          apply ih fd.type p.2 fn rv pth c (L - 1) hIc hpb (hS.fields o.name o ho fd hmem)
+          have hw : fd.type.wrappers ≤ S.maxWrappers := wrappers_le_max S o.name o ho fd hmem
+          unfold needSel
+          have : L = (L - 1) + 1 := by omega
+          have hexp : L * (S.maxWrappers + 3) = (L - 1) * (S.maxWrappers + 3) + (S.maxWrappers + 3) := by
+            conv => lhs; rw [this, Nat.add_mul, Nat.one_mul]
+          omega
+    · intro p hp
+      rw [hg'] at hp
+      exact groupInOrder_nonempty fs p hp
+    · exact hc'
+
+
+theorem mem_implementations_find (S : Schema) (n : String) (v : RVal) (tn : String)
+    (h : (S.implementations n).find? (fun t => isTypeOf t v) = some tn) : tn ∈ S.implementations n :=
+  List.mem_of_find?_eq_some h
+
+theorem totalC_succ (memo : Bool) (S : Schema) (D : Document) (P : Selection → Prop) (hS : SchemaClosed S)
+    (lvl : Selection → Nat)
+    (fuel : Nat) (ihc : TotalC memo S D P lvl fuel) (ihs : TotalS memo S D P lvl fuel) :
+    TotalC memo S D P lvl (fuel + 1) := by
+  intro t fields f0 v path c L hc hb hbase hfuel
+  cases t with
+  | nonNull inner =>
+    rw [completeValue_nonNull]
+    simp only [TypeRef.wrappers] at hfuel
+    simp only [TypeRef.base] at hbase
+    obtain ⟨h1, h2⟩ := ihc inner fields f0 v path c L hc hb hbase (by omega)
+    cases hr : (completeValue memo S D fuel inner fields f0 v path c).r with
+    | ok j =>
+      cases j with
+      | null => simp only; exact ⟨by simp [R.notStuck], h2⟩
+      | bool b => simp only; exact ⟨h1, h2⟩
+      | int z => simp only; exact ⟨h1, h2⟩
+      | num m e => simp only; exact ⟨h1, h2⟩
+      | str x => simp only; exact ⟨h1, h2⟩
+      | arr xs => simp only; exact ⟨h1, h2⟩
+      | obj kvs => simp only; exact ⟨h1, h2⟩
+    | err e => simp only; exact ⟨h1, h2⟩
+    | stuck st => simp only; exact ⟨h1, h2⟩
+  | list inner =>
+    rw [completeValue_list]
+    simp only [TypeRef.wrappers] at hfuel
+    simp only [TypeRef.base] at hbase
+    by_cases hnil : v.isNil = true
+    · simp only [hnil, if_true]; exact ⟨by simp [R.notStuck], hc⟩
+    · simp only [hnil, Bool.false_eq_true, if_false]
+      cases v with
+      | list items =>
+        simp only
+        rw [completeItemsWith_eq]
+        simp only [List.nil_append]
+        obtain ⟨h1, h2⟩ := runItems_notStuck (CacheOK S D P) inner path
+          (fun v p c => completeValue memo S D fuel inner fields f0 v p c)
+          (fun v p c hI => ihc inner fields f0 v p c L hI hb hbase (by omega)) items 0 c hc
+        exact ⟨joinResults_notStuck _ h1, h2⟩
+      | leaf g => exact ⟨by simp [R.notStuck], hc⟩
+      | null => exact ⟨by simp [R.notStuck], hc⟩
+      | tnil => exact ⟨by simp [R.notStuck], hc⟩
+      | obj ty es => exact ⟨by simp [R.notStuck], hc⟩
+  | named n =>
+    rw [completeValue_named]
+    simp only [TypeRef.wrappers, Nat.zero_add] at hfuel
+    simp only [TypeRef.base] at hbase
+    have hmerge := subBound_merge P lvl L fields hb
+    by_cases hnil : v.isNil = true
+    · simp only [hnil, if_true]; exact ⟨by simp [R.notStuck], hc⟩
+    · simp only [hnil, Bool.false_eq_true, if_false]
+      cases hl : S.lookup n with
+      | none => exact absurd hl hbase
+      | some td =>
+        cases td with
+        | scalar k =>
+          simp only
+          cases v with
+          | leaf g => simp only; cases coerceScalar k g <;> exact ⟨by simp [R.notStuck], hc⟩
+          | null => exact ⟨by simp [R.notStuck], hc⟩
+          | tnil => exact ⟨by simp [R.notStuck], hc⟩
+          | list items => exact ⟨by simp [R.notStuck], hc⟩
+          | obj ty es => exact ⟨by simp [R.notStuck], hc⟩
+        | enum values =>
+          simp only
+          cases v with
+          | leaf g => simp only; cases coerceEnum values g <;> exact ⟨by simp [R.notStuck], hc⟩
+          | null => exact ⟨by simp [R.notStuck], hc⟩
+          | tnil => exact ⟨by simp [R.notStuck], hc⟩
+          | list items => exact ⟨by simp [R.notStuck], hc⟩
+          | obj ty es => exact ⟨by simp [R.notStuck], hc⟩
+        | object fs is =>
+          simp only
+          exact ihs _ _ _ _ c L hc (object?_of_lookup S n fs is hl) hmerge (by omega)
+        | interface fs =>
+          simp only
+          cases hf : (S.implementations n).find? (fun t => isTypeOf t v) with
+          | none => exact ⟨by simp [R.notStuck], hc⟩
+          | some tn =>
+            simp only
+            obtain ⟨o, ho⟩ := hS.impls n tn (mem_implementations_find S n v tn hf)
+            simp only [ho]
+            exact ihs _ _ _ _ c L hc (object?_name S tn o ho) hmerge (by omega)
+        | union ms =>
+          simp only
+          cases hf : ms.find? (fun t => isTypeOf t v) with
+          | none => exact ⟨by simp [R.notStuck], hc⟩
+          | some tn =>
+            simp only
+            obtain ⟨o, ho⟩ := hS.members n ms hl tn (List.mem_of_find?_eq_some hf)
+            simp only [ho]
+            exact ihs _ _ _ _ c L hc (object?_name S tn o ho) hmerge (by omega)
+
+theorem total_main (memo : Bool) (S : Schema) (D : Document) (P : Selection → Prop) (hP : NodeSet D P)
+    (hS : SchemaClosed S) (hC : CondsComposite S D P)
+    (lvl : Selection → Nat) (hL : Descends D P lvl) (fuel : Nat) :
+    TotalC memo S D P lvl fuel ∧ TotalS memo S D P lvl fuel := by
+  induction fuel with
+  | zero =>
+    constructor
+    · intro t fields f0 v path c L _ _ _ hfuel; unfold needSel at hfuel; omega
+    · intro o sels v path c L _ _ _ hfuel; unfold needSel at hfuel; omega
+  | succ fuel ih => exact ⟨totalC_succ memo S D P hS lvl fuel ih.1 ih.2, totalS_succ memo S D P hP hS hC lvl hL fuel ih.1⟩
+
+theorem getOperation_mem (D : Document) (opName : String) (op : Op) (hgo : getOperation D opName = .ok op) : op ∈ D.ops := by
+  have : ∀ (ops : List Op) (found : Option Op) (r : Op), getOperation.go opName ops found = .ok r →
+      r ∈ ops ∨ found = some r := by
+    intro ops
+    induction ops with
+    | nil => intro found r h; cases found <;> simp [getOperation.go] at h; exact Or.inr (by rw [h])
+    | cons a rest ihl =>
+      intro found r h
+      simp only [getOperation.go] at h
+      split at h
+      · cases found with
+        | some f => simp at h
+        | none =>
+          simp only at h
+          rcases ihl _ _ h with h1 | h1
+          · exact Or.inl (List.mem_cons_of_mem _ h1)
+          · simp only [Option.some.injEq] at h1; exact Or.inl (by rw [h1]; exact List.mem_cons_self ..)
+      · rcases ihl _ _ h with h1 | h1
+        · exact Or.inl (List.mem_cons_of_mem _ h1)
+        · exact Or.inr h1
+  unfold getOperation at hgo
+  rcases this _ _ _ hgo with h1 | h1
+  · exact h1
+  · simp at h1
+
+/-- **The model always answers** on cycle-free documents over closed schemas with composite type
+    conditions, given `needSel W L` fuel. -/
+theorem execute_total (memo : Bool) (S : Schema) (D : Document) (P : Selection → Prop) (hP : NodeSet D P)
+    (hS : SchemaClosed S) (hC : CondsComposite S D P)
+    (lvl : Selection → Nat) (hL : Descends D P lvl) (L : Nat)
+    (hops : ∀ op ∈ D.ops, ∀ s ∈ op.sels, P s ∧ lvl s < L)
+    (fuel : Nat) (hfuel : needSel S.maxWrappers L ≤ fuel) (opName : String) (root : RVal) :
+    ∃ resp, execute memo S D fuel opName root = .ok resp := by
+  unfold execute
+  cases hgo : getOperation D opName with
+  | error e => exact ⟨_, rfl⟩
+  | ok op =>
+    simp only
+    cases hroot : (rootTypeName S op.kind).bind S.object? with
+    | none => exact ⟨_, rfl⟩
+    | some o =>
+      simp only
+      have ho : S.object? o.name = some o := by
+        cases hk : rootTypeName S op.kind with
+        | none => simp [hk] at hroot
+        | some tn =>
+          simp only [hk, Option.bind_some] at hroot
+          exact object?_name S tn o hroot
+      obtain ⟨h1, _⟩ := (total_main memo S D P hP hS hC lvl hL fuel).2 o op.sels root [] [] L (cacheOK_nil S D P) ho
+        (hops op (getOperation_mem D opName op hgo)) hfuel
+      cases hr : (execSelections memo S D fuel o op.sels root [] []).r with
+      | ok j => exact ⟨_, rfl⟩
+      | err e => exact ⟨_, rfl⟩
+      | stuck st => rw [hr] at h1; exact absurd h1 (by simp [R.notStuck])
+
+
+/-! ### totality of the reference -/
+
+theorem spec_collectSelection_isSome (S : Schema) (D : Document) (o : ObjT) (P : Selection → Prop) (hP : NodeSet D P)
+    (lvl : Selection → Nat) (hL : Descends D P lvl) (fuel : Nat)
+    (recur : List Selection → List String → Option (Grouped × List String))
+    (hrec : ∀ sels vis, (∀ s ∈ sels, P s ∧ lvl s + 2 ≤ fuel) → 1 ≤ fuel → (recur sels vis).isSome)
+    (acc : Grouped × List String) (sel : Selection) (hsel : P sel) (hl : lvl sel + 1 ≤ fuel) :
+    (Spec.collectSelection S D o recur acc sel).isSome := by
+  unfold Spec.collectSelection
+  obtain ⟨grouped, visited⟩ := acc
+  simp only
+  by_cases hx : Spec.excluded sel.dirs = true
+  · simp [hx]
+  · simp only [hx, Bool.false_eq_true, if_false]
+    have hfuel : 1 ≤ fuel := by omega
+    cases sel with
+    | field pos alias name wkey argErr dirs sub => simp
+    | spread pos name dirs =>
+      simp only [fragmentNamed_eq]
+      by_cases hv : name ∈ visited
+      · simp [hv]
+      · simp only [hv, if_false]
+        cases hf : D.frag? name with
+        | none => simp
+        | some fr =>
+          simp only
+          by_cases ha : Spec.doesFragmentTypeApply S o fr.tc = true
+          · simp only [ha, if_true]
+            have : (recur fr.sels (name :: visited)).isSome := by
+              apply hrec _ _ _ hfuel
+              intro s hs'
+              refine ⟨hP.frags fr (frag?_mem D name fr hf) s hs', ?_⟩
+              have := hL.spread pos name dirs fr hsel hf s hs'
+              omega
+            cases hr : recur fr.sels (name :: visited) with
+            | none => simp [hr] at this
+            | some q => simp
+          · simp [ha]
+    | inline pos tc dirs sub =>
+      have hsub : (recur sub visited).isSome := by
+        apply hrec _ _ _ hfuel
+        intro s hs'
+        refine ⟨hP.inline_sub _ _ _ _ hsel s hs', ?_⟩
+        have := hL.inline pos tc dirs sub hsel s hs'
+        omega
+      cases hr : recur sub visited with
+      | none => simp [hr] at hsub
+      | some q =>
+        cases tc with
+        | none => simp [hr]
+        | some tc =>
+          by_cases ha : Spec.doesFragmentTypeApply S o tc = true
+          · simp [ha, hr]
+          · simp [ha]
+
+theorem spec_collect_isSome (S : Schema) (D : Document) (o : ObjT) (P : Selection → Prop) (hP : NodeSet D P)
+    (lvl : Selection → Nat) (hL : Descends D P lvl) (fuel : Nat) (sels : List Selection) (vis : List String)
+    (hsels : ∀ s ∈ sels, P s ∧ lvl s + 2 ≤ fuel) (hfuel : 1 ≤ fuel) :
+    (Spec.collectFields S D o fuel sels vis).isSome := by
+  induction fuel generalizing sels vis with
+  | zero => omega
+  | succ fuel ih =>
+    rw [Spec.collectFields]
+    have fold : ∀ (sels : List Selection) (acc : Grouped × List String), (∀ s ∈ sels, P s ∧ lvl s + 1 ≤ fuel) →
+        (sels.foldlM (Spec.collectSelection S D o (Spec.collectFields S D o fuel)) acc).isSome := by
+      intro sels
+      induction sels with
+      | nil => intro acc _; simp [pure]
+      | cons sel rest ihl =>
+        intro acc hs
+        simp only [List.foldlM_cons]
+        have h1 := spec_collectSelection_isSome S D o P hP lvl hL fuel (Spec.collectFields S D o fuel)
+          (fun sels vis h hf => ih sels vis h hf) acc sel (hs sel (List.mem_cons_self ..)).1 (hs sel (List.mem_cons_self ..)).2
+        cases hstep : Spec.collectSelection S D o (Spec.collectFields S D o fuel) acc sel with
+        | none => simp [hstep] at h1
+        | some acc1 =>
+          simp only [Option.bind_eq_bind, Option.bind_some]
+          exact ihl acc1 (fun s hs' => hs s (List.mem_cons_of_mem _ hs'))
+    apply fold
+    intro s hs
+    have := hsels s hs
+    exact ⟨this.1, by omega⟩
+
+theorem option_mapM_isSome {α β : Type} (f : α → Option β) (l : List α) (h : ∀ a ∈ l, (f a).isSome) :
+    (l.mapM f).isSome := by
+  induction l with
+  | nil => simp [pure]
+  | cons a rest ih =>
+    simp only [List.mapM_cons]
+    have ha := h a (List.mem_cons_self ..)
+    cases hfa : f a with
+    | none => simp [hfa] at ha
+    | some b =>
+      have := ih (fun x hx => h x (List.mem_cons_of_mem _ hx))
+      cases hr : rest.mapM f with
+      | none => simp [hr] at this
+      | some bs => simp
+
+
+def SpecTotalC (S : Schema) (D : Document) (P : Selection → Prop) (lvl : Selection → Nat) (fuel : Nat) : Prop :=
+  ∀ t fields f0 v path L, SubBound P lvl L fields → S.lookup t.base ≠ none →
+    t.wrappers + needSel S.maxWrappers L + 1 ≤ fuel →
+    (Spec.completeValue S D fuel t fields f0 v path).isSome
+
+def SpecTotalS (S : Schema) (D : Document) (P : Selection → Prop) (lvl : Selection → Nat) (fuel : Nat) : Prop :=
+  ∀ o sels v path L, S.object? o.name = some o → (∀ s ∈ sels, P s ∧ lvl s < L) →
+    needSel S.maxWrappers L ≤ fuel →
+    (Spec.executeSelectionSet S D fuel o sels v path).isSome
+
+theorem specTotalS_succ (S : Schema) (D : Document) (P : Selection → Prop) (hP : NodeSet D P)
+    (hS : SchemaClosed S) (hC : CondsComposite S D P)
+    (lvl : Selection → Nat) (hL : Descends D P lvl) (fuel : Nat) (ih : SpecTotalC S D P lvl fuel) :
+    SpecTotalS S D P lvl (fuel + 1) := by
+  intro o sels v path L ho hsels hfuel
+  rw [Spec.executeSelectionSet]
+  unfold needSel at hfuel
+  have hmul : L ≤ L * (S.maxWrappers + 3) := Nat.le_mul_of_pos_right L (by omega)
+  have hsels2 : ∀ s ∈ sels, P s ∧ lvl s + 2 ≤ fuel := fun s hs => ⟨(hsels s hs).1, by have := (hsels s hs).2; omega⟩
+  have hcs := spec_collect_isSome S D o P hP lvl hL fuel sels [] hsels2 (by omega)
+  cases hc : Spec.collectFields S D o fuel sels [] with
+  | none => simp [hc] at hcs
+  | some gv =>
+    obtain ⟨g, vis⟩ := gv
+    simp only
+    -- the same grouped set as the executor's, hence the grouping of an expansion
+    have hm := collectImpl_isOk S D o P hP hC lvl hL fuel sels { visited := [], grouped := [] } hsels2 (by omega)
+    rw [collectImpl_eq_expand] at hm
+    cases he : expand S D o fuel sels [] with
+    | error e => simp [he, mapOk, IsOk] at hm
+    | ok r =>
+      obtain ⟨fs, v0⟩ := r
+      obtain ⟨hg, _⟩ := spec_collect_eq_expand S D o fuel fuel sels [] fs v0 g vis he hc
+      subst hg
+      have hmapM : ((groupInOrder fs).mapM (Spec.executeEntry o v path (Spec.completeValue S D fuel))).isSome := by
+        apply option_mapM_isSome
+        intro p hp
+        have hne := groupInOrder_nonempty fs p hp
+        obtain ⟨key, fields⟩ := p
+        cases fields with
+        | nil => exact absurd rfl hne
+        | cons f0 tl =>
+          simp only [Spec.executeEntry]
+          by_cases htn : f0.name = "__typename"
+          · simp [htn]
+          · simp only [htn, if_false]
+            cases hfd : o.fields.find? (fun (fd : FieldDef) => decide (fd.name = f0.name)) with
+            | none => simp
+            | some fd =>
+              simp only
+              cases hae : f0.argErr with
+              | some ae => simp
+              | none =>
+                simp only
+                cases hres : resolve v f0.wkey with
+                | err m => simp
+                | val rv =>
+                  simp only
+                  have hL0 : L ≠ 0 := by
+                    intro h0
+                    have hnil : sels = [] := by
+                      apply List.eq_nil_iff_forall_not_mem.mpr
+                      intro s hs
+                      have := (hsels s hs).2
+                      omega
+                    subst hnil
+                    have := expand_nil S D o fuel [] (fs, v0) he
+                    simp only at this
+                    subst this
+                    simp [groupInOrder] at hp
+                  have hbound : SubBound P lvl (L - 1) fs :=
+                    expand_bound S D o P hP lvl hL (L - 1) fuel sels [] (fs, v0)
+                      (fun s hs => ⟨(hsels s hs).1, by have := (hsels s hs).2; omega⟩) he
+                  have hpb := groupInOrder_subBound P lvl (L - 1) fs hbound _ hp
+                  have hmem : fd ∈ o.fields := List.mem_of_find?_eq_some hfd
+                  have hw : fd.type.wrappers ≤ S.maxWrappers := wrappers_le_max S o.name o ho fd hmem
+                  have := ih fd.type (f0 :: tl) f0 rv (path ++ [PathSeg.key key]) (L - 1) hpb (hS.fields o.name o ho fd hmem) (by
+                    unfold needSel
+                    have : L = (L - 1) + 1 := by omega
+                    have hexp : L * (S.maxWrappers + 3) = (L - 1) * (S.maxWrappers + 3) + (S.maxWrappers + 3) := by
+                      conv => lhs; rw [this, Nat.add_mul, Nat.one_mul]
+                    omega)
+                  cases hcv : Spec.completeValue S D fuel fd.type (f0 :: tl) f0 rv (path ++ [PathSeg.key key]) with
+                  | none => simp [hcv] at this
+                  | some r0 => simp
+      cases hrs : (groupInOrder fs).mapM (Spec.executeEntry o v path (Spec.completeValue S D fuel)) with
+      | none => simp [hrs] at hmapM
+      | some rs => simp
+
+theorem specTotalC_succ (S : Schema) (D : Document) (P : Selection → Prop) (hS : SchemaClosed S)
+    (lvl : Selection → Nat) (fuel : Nat) (ihc : SpecTotalC S D P lvl fuel) (ihs : SpecTotalS S D P lvl fuel) :
+    SpecTotalC S D P lvl (fuel + 1) := by
+  intro t fields f0 v path L hb hbase hfuel
+  cases t with
+  | nonNull inner =>
+    simp only [Spec.completeValue]
+    simp only [TypeRef.wrappers] at hfuel
+    simp only [TypeRef.base] at hbase
+    have := ihc inner fields f0 v path L hb hbase (by omega)
+    cases hin : Spec.completeValue S D fuel inner fields f0 v path with
+    | none => simp [hin] at this
+    | some r =>
+      simp only
+      cases hd : r.data with
+      | none => simp
+      | some j => cases j <;> simp
+  | list inner =>
+    simp only [Spec.completeValue]
+    simp only [TypeRef.wrappers] at hfuel
+    simp only [TypeRef.base] at hbase
+    by_cases hnil : Spec.isNullish v = true
+    · simp [hnil]
+    · simp only [hnil, Bool.false_eq_true, if_false]
+      cases v with
+      | list items =>
+        simp only
+        have : ((items.zipIdx).mapM (Spec.completeItem inner path (Spec.completeValue S D fuel inner fields f0))).isSome := by
+          apply option_mapM_isSome
+          intro p _
+          simp only [Spec.completeItem]
+          have := ihc inner fields f0 p.1 (path ++ [PathSeg.idx p.2]) L hb hbase (by omega)
+          cases hcv : Spec.completeValue S D fuel inner fields f0 p.1 (path ++ [PathSeg.idx p.2]) with
+          | none => simp [hcv] at this
+          | some r0 => simp
+        cases hrs : (items.zipIdx).mapM (Spec.completeItem inner path (Spec.completeValue S D fuel inner fields f0)) with
+        | none => simp [hrs] at this
+        | some rs => simp
+      | leaf g => simp
+      | null => simp
+      | tnil => simp
+      | obj ty es => simp
+  | named n =>
+    simp only [Spec.completeValue]
+    simp only [TypeRef.wrappers, Nat.zero_add] at hfuel
+    simp only [TypeRef.base] at hbase
+    have hmerge := subBound_merge P lvl L fields hb
+    rw [← mergeSelectionSets_eq] at hmerge
+    by_cases hnil : Spec.isNullish v = true
+    · simp [hnil]
+    · simp only [hnil, Bool.false_eq_true, if_false]
+      cases hl : S.lookup n with
+      | none => exact absurd hl hbase
+      | some td =>
+        cases td with
+        | scalar k =>
+          simp only
+          cases v with
+          | leaf g => simp only; cases Spec.resultCoerce k g <;> simp
+          | null => simp
+          | tnil => simp
+          | list items => simp
+          | obj ty es => simp
+        | enum values =>
+          simp only
+          cases v with
+          | leaf g => simp only; cases Spec.enumCoerce values g <;> simp
+          | null => simp
+          | tnil => simp
+          | list items => simp
+          | obj ty es => simp
+        | object fs is =>
+          simp only
+          exact ihs _ _ _ _ L (object?_of_lookup S n fs is hl) hmerge (by omega)
+        | interface fs =>
+          simp only [implementations_eq S n fs hl]
+          cases hf : (S.implementations n).find? (fun t => isTypeOf t v) with
+          | none => simp
+          | some tn =>
+            simp only
+            obtain ⟨o, ho⟩ := hS.impls n tn (List.mem_of_find?_eq_some hf)
+            simp only [ho]
+            exact ihs _ _ _ _ L (object?_name S tn o ho) hmerge (by omega)
+        | union ms =>
+          simp only [possibleTypes_union S n ms hl]
+          cases hf : ms.find? (fun t => isTypeOf t v) with
+          | none => simp
+          | some tn =>
+            simp only
+            obtain ⟨o, ho⟩ := hS.members n ms hl tn (List.mem_of_find?_eq_some hf)
+            simp only [ho]
+            exact ihs _ _ _ _ L (object?_name S tn o ho) hmerge (by omega)
+
+theorem specTotal_main (S : Schema) (D : Document) (P : Selection → Prop) (hP : NodeSet D P)
+    (hS : SchemaClosed S) (hC : CondsComposite S D P)
+    (lvl : Selection → Nat) (hL : Descends D P lvl) (fuel : Nat) :
+    SpecTotalC S D P lvl fuel ∧ SpecTotalS S D P lvl fuel := by
+  induction fuel with
+  | zero =>
+    constructor
+    · intro t fields f0 v path L _ _ hfuel; unfold needSel at hfuel; omega
+    · intro o sels v path L _ _ hfuel; unfold needSel at hfuel; omega
+  | succ fuel ih => exact ⟨specTotalC_succ S D P hS lvl fuel ih.1 ih.2, specTotalS_succ S D P hP hS hC lvl hL fuel ih.1⟩
+
+/-- **The reference always answers** under the same conditions: it executes, or refuses the request. -/
+theorem spec_total (S : Schema) (D : Document) (P : Selection → Prop) (hP : NodeSet D P)
+    (hS : SchemaClosed S) (hC : CondsComposite S D P)
+    (lvl : Selection → Nat) (hL : Descends D P lvl) (L : Nat)
+    (hops : ∀ op ∈ D.ops, ∀ s ∈ op.sels, P s ∧ lvl s < L)
+    (fuel : Nat) (hfuel : needSel S.maxWrappers L ≤ fuel) (opName : String) (root : RVal) :
+    Spec.executeRequest S D fuel opName root = .requestError ∨
+    ∃ s, Spec.executeRequest S D fuel opName root = .executed s := by
+  unfold Spec.executeRequest
+  cases hgo : Spec.getOperation D opName with
+  | none => exact Or.inl rfl
+  | some op =>
+    simp only
+    cases hroot : (Spec.rootType S op.kind).bind S.object? with
+    | none => exact Or.inl rfl
+    | some o =>
+      simp only
+      right
+      have ho : S.object? o.name = some o := by
+        cases hk : Spec.rootType S op.kind with
+        | none => simp [hk] at hroot
+        | some tn =>
+          simp only [hk, Option.bind_some] at hroot
+          exact object?_name S tn o hroot
+      have := (specTotal_main S D P hP hS hC lvl hL fuel).2 o op.sels root [] L ho
+        (hops op (spec_getOperation_mem D opName op hgo)) hfuel
+      cases hss : Spec.executeSelectionSet S D fuel o op.sels root [] with
+      | none => simp [hss] at this
+      | some s => exact ⟨s, rfl⟩
+
+
+/-! ### decidable tests for the hypotheses on schema and type conditions -/
+
+def Schema.closedCheck (S : Schema) : Bool :=
+  S.types.all fun p =>
+    match p.2 with
+    | .object fs _ => fs.all (fun fd => (S.lookup fd.type.base).isSome) && (S.object? p.1).isSome
+    | .union ms => ms.all fun tn => (S.object? tn).isSome
+    | _ => true
+
+theorem lookup_mem (S : Schema) (n : String) (td : TypeDef) (h : S.lookup n = some td) : (n, td) ∈ S.types := by
+  unfold Schema.lookup at h
+  cases hf : S.types.find? (fun p => p.1 == n) with
+  | none => simp [hf] at h
+  | some p =>
+    simp only [hf, Option.some.injEq] at h
+    have hm := List.mem_of_find?_eq_some hf
+    have hk : p.1 = n := by simpa using List.find?_some hf
+    obtain ⟨a, b⟩ := p
+    simp only at hk h
+    subst hk; subst h
+    exact hm
+
+theorem schemaClosed_of_check (S : Schema) (h : S.closedCheck = true) : SchemaClosed S := by
+  unfold Schema.closedCheck at h
+  rw [List.all_eq_true] at h
+  refine ⟨?_, ?_, ?_⟩
+  · intro n o ho fd hfd
+    unfold Schema.object? at ho
+    cases hl : S.lookup n with
+    | none => simp [hl] at ho
+    | some td =>
+      cases td with
+      | object fs is =>
+        simp only [hl, Option.some.injEq] at ho
+        subst ho
+        have := h _ (lookup_mem S n _ hl)
+        simp only [Bool.and_eq_true, List.all_eq_true] at this
+        have := this.1 fd hfd
+        intro hnone
+        simp [hnone] at this
+      | scalar k => simp [hl] at ho
+      | interface fs => simp [hl] at ho
+      | union ms => simp [hl] at ho
+      | enum vs => simp [hl] at ho
+  · intro n tn htn
+    unfold Schema.implementations at htn
+    simp only [List.mem_filterMap] at htn
+    obtain ⟨p, hp, hq⟩ := htn
+    have := h p hp
+    cases hp2 : p.2 with
+    | object fs is =>
+      simp only [hp2] at this hq
+      split at hq
+      · simp only [Option.some.injEq] at hq
+        subst hq
+        simp only [Bool.and_eq_true] at this
+        exact Option.isSome_iff_exists.mp this.2
+      · simp at hq
+    | scalar k => simp [hp2] at hq
+    | interface fs => simp [hp2] at hq
+    | union ms => simp [hp2] at hq
+    | enum vs => simp [hp2] at hq
+  · intro n ms hl tn htn
+    have := h _ (lookup_mem S n _ hl)
+    simp only [List.all_eq_true] at this
+    exact Option.isSome_iff_exists.mp (this tn htn)
+
+def condOK (S : Schema) (tc : String) : Bool :=
+  match S.lookup tc with
+  | some (.scalar _) => false
+  | some (.enum _) => false
+  | _ => true
+
+theorem fragmentApplies_ne_panic (S : Schema) (o : ObjT) (tc : String) (h : condOK S tc = true) :
+    fragmentApplies S o tc ≠ .panic := by
+  unfold condOK at h
+  unfold fragmentApplies
+  cases hl : S.lookup tc with
+  | none => simp
+  | some td =>
+    cases td with
+    | scalar k => simp [hl] at h
+    | enum vs => simp [hl] at h
+    | object fs is => simp only; split <;> simp
+    | interface fs => simp only; split <;> simp
+    | union ms => simp only; split <;> simp
+
+def Document.condsCheck (D : Document) (S : Schema) : Bool :=
+  (D.nodes.all fun s =>
+    match s with
+    | .inline _ (some tc) _ _ => condOK S tc
+    | _ => true) &&
+  D.frags.all fun fr => condOK S fr.tc
+
+theorem condsComposite_of_check (S : Schema) (D : Document) (h : D.condsCheck S = true) :
+    CondsComposite S D (· ∈ D.nodes) := by
+  unfold Document.condsCheck at h
+  simp only [Bool.and_eq_true, List.all_eq_true] at h
+  refine ⟨?_, ?_⟩
+  · intro pos tc dirs sub hm o
+    have := h.1 _ hm
+    simp only at this
+    exact fragmentApplies_ne_panic S o tc this
+  · intro fr hfr o
+    exact fragmentApplies_ne_panic S o fr.tc (h.2 fr hfr)
+
+
+/-! ### a candidate descent certificate (computed by the driver for every case) -/
+
+/-- height of a selection through sub-selections and fragment spreads, explored to depth `fuel`; for a
+    document without fragment cycles and enough fuel it satisfies `Document.descentCheck` -/
+def heightOf (D : Document) : Nat → Selection → Nat
+  | 0, _ => 0
+  | fuel + 1, s =>
+    match s with
+    | .field _ _ _ _ _ _ sub => 1 + (sub.map (heightOf D fuel)).foldl max 0
+    | .inline _ _ _ sub => 1 + (sub.map (heightOf D fuel)).foldl max 0
+    | .spread _ name _ =>
+      match D.frag? name with
+      | some fr => 1 + (fr.sels.map (heightOf D fuel)).foldl max 0
+      | none => 1
+
+/-- the hypotheses of `exec_correct_total` as one executable test (the certificate is `heightOf`) -/
+def hypothesesHold (S : Schema) (D : Document) : Bool :=
+  let n := D.nodes.length + D.frags.length + 2
+  decide ((D.nodes.map Selection.pos).Nodup) && D.nodes.all (fun s => decide s.keyOK) &&
+    S.closedCheck && D.condsCheck S && D.descentCheck (heightOf D n)
 
 end ApiFu.C01
